@@ -781,20 +781,21 @@ class Sequence:
         # Apply channel delays.
 
         if apply_delays:
-            delays = []
+            delays = {}
             for chan in channels:
                 try:
-                    delays.append(self._awgspecs[f"channel{chan}_delay"])
+                    delays[chan] = self._awgspecs[f"channel{chan}_delay"]
                 except KeyError:
-                    delays.append(0)
+                    delays[chan] = 0
 
             for pos in range(1, seqlen + 1):
                 if isinstance(data[pos], Sequence):
                     subseq = data[pos]
                     for elem in subseq._data.values():
-                        elem._applyDelays(delays)
+                        elem._applyDelays([delays[ch] for ch in elem.channels])
                 elif isinstance(data[pos], Element):
-                    data[pos]._applyDelays(delays)
+                    elem = data[pos]
+                    elem._applyDelays([delays[ch] for ch in elem.channels])
 
         # forge arrays and form the output dict
         for pos in range(1, seqlen + 1):
